@@ -266,6 +266,19 @@ fn main() {
             }
         }
     }
+    // scripted: a WHERE clause that cannot be evaluated.  SELECT reports the error; DELETE keeps every
+    // row and reports success (pinned by the repository's own test test_delete_column_not_found)
+    {
+        let mut db = Database::new();
+        sql::must(&mut db, "CREATE TABLE s0 (c0 INTEGER, c1 INTEGER)");
+        sql::must(&mut db, "INSERT INTO s0 VALUES (1, 2), (3, 4)");
+        let sel = observe(&mut db, "SELECT * FROM s0 WHERE c0 = 'x'");
+        let del = sql::exec(&mut db, "DELETE FROM s0 WHERE c0 = 'x'");
+        sum.evaluations += 1;
+        if let (Obs::Err(m), Outcome::Count(n)) = (&sel, &del) {
+            sum.finding("delete-swallows-where-errors", 1_000_000, format!("DELETE FROM s0 WHERE c0 = 'x' reports {} rows deleted and succeeds, while SELECT with the same WHERE fails: {}", n, m), json!({"sql": "DELETE FROM s0 WHERE c0 = 'x'"}));
+        }
+    }
     if args.only.is_none() {
         for s in 0..nshards {
             if !shard_lists[s].is_empty() {
